@@ -409,6 +409,25 @@ def sequences(rng, n):
         for f in followers:
             out.append({"seq": [dict(mk(*init)), dict(mk(*init)), dict(mk(*f), sid="$last", advance=adv),
                                 dict(mk(*f), sid="$last", advance=adv), dict(mk("ping", 3, "<absent>"), sid="$last", advance=1)]})
+    # state built from unusual-but-accepted input: an initialize whose clientInfo / capabilities / protocolVersion is of every
+    # JSON type class (answered normally, a session id is issued), THEN the whole dispatch matrix with that session id
+    matrix = [("ping", 2, "<absent>"), ("nosuch", 3, {}), ("custom/raises", 4, {}), ("custom/none", 5, {}), ("tools/call", 6, {"name": "echo"}),
+              ("tools/call", 7, {"name": "boom"}), ("resources/read", 8, {"uri": "file:///nosuch"}), ("notifications/initialized", "<absent>", "<absent>"),
+              ("notifications/cancelled", "<absent>", {"requestId": 1}), ("custom/raises", "<absent>", {}), ("", 9, {}),
+              ("initialize", 10, {"clientInfo": {"name": "again"}}), ("tools/list", 0, {})]
+    for member in ("clientInfo", "capabilities", "protocolVersion", "_meta"):
+        for v in TYPE_CLASSES:
+            params = {"protocolVersion": "2025-06-18", "clientInfo": {"name": "c", "version": "1"}, "capabilities": {}}
+            if v == "<absent>":
+                params.pop(member, None)
+            else:
+                params[member] = v
+            for env in ("legacy", "typed"):
+                out.append({"seq": [dict(mk("initialize", 1, params, env))] + [dict(mk(*f), sid="$last") for f in matrix]})
+    for v in TYPE_CLASSES[:-1]:
+        # every member odd at once, and the session id used on a second server's dispatcher as well (unknown there)
+        params = {"protocolVersion": v, "clientInfo": v, "capabilities": v}
+        out.append({"seq": [dict(mk("initialize", 1, params))] + [dict(mk(*f), sid="$last", advance=1) for f in matrix], "debug": True})
     # growth: the 600th message of a session, a table of sessions that only grows
     long_seq = [dict(mk(*init))]
     for k in range(600):
